@@ -107,6 +107,8 @@ func (c *Collector) seen(id string) bool {
 }
 
 func (c *Collector) sorted() []*vioEntry {
+	c.mu.Lock()
+	defer c.mu.Unlock()
 	var l []*vioEntry
 	for _, e := range c.m {
 		l = append(l, e)
@@ -297,8 +299,11 @@ func (r *Run) finish() int {
 	for _, e := range fresh {
 		// re-execute 5 times: must fail identically (guards against harness nondeterminism); if the smallest case of
 		// the class does not reproduce, the other recorded cases of the class are tried
-		stable := false
+		stable := noReverify && e.v.Class == "hang"
 		for _, cand := range append([]*Violation{e.v}, e.alts...) {
+			if stable {
+				break
+			}
 			ok := true
 			for i := 0; i < 5; i++ {
 				vs := replayCase(cand.Property, cand.Case)
